@@ -63,15 +63,13 @@ CLAIMED = {
          "the six coupling-restricted get_weight's sum to the unrestricted one and every NC weight builder is additive. Real runs compare the sums entry-wise.",
          "Trusted: Coq kernel+vm_compute; harness; model tied by sampled correspondence; linearity of compute_local in the kernel list (C01). For NfFF>=4 the "
          "massless heavy quarks are slices of light, so the partition proved is over the massive quarks only (DESIGN 4 C07).", "4 C07"),
- "C08": ("Coq theorems: (structural half) case analysis / list induction over the outcome monad on the hand-written Weights/Combiner model; (analytic half, CC gluon channel) real-analysis "
-         "inequalities (field, ln monotonicity, nra) on the closures REGENERATED from the source by the instance-closure translator tools/pyinst.py; Combiner model tied by differential "
-         "correspondence in FFN0 and FFNS cells; the remaining channels are explored on real FFNS/FFN0 run pairs",
-         "Proof: for CC, NC parity-conserving, intrinsic and 'missing' channels, any couplings, nf, heavy quark and order, the FFN0 kernels carry exactly the parton weights, nf and heavy-quark "
-         "mass of the FFNS ones; for the NLO gluon channel of CC F2, FL, F3 the asymptotic coefficient function is the limit of the massive one with the explicit remainder "
-         "|massive(z; lambda) - asy(z; ln(lambda/(1-lambda)))| <= (1-lambda)(A(z) + B |ln(1-lambda)|), 1-lambda = m2/(Q2+m2), every z in (0,1), lambda in [1/2,1); for the LO quark channel the massive contribution tends to the asymptotic one like 1-lambda for any bounded Lipschitz PDF; for the NLO "
-         "quark channel of CC F2, FL, F3 the regular and singular parts converge pointwise in z to the massless NLO quark coefficient function, remainder (1-lambda) A(z). "
-         "PARTIAL: the NLO quark channel as a plus distribution against a PDF (A(z) is not integrable at z = 1; the local part contains dilogarithms) "
-         "and all NC channels (LeProHQ, third party) are tested on real runs at Q2/m2 = 1e2, 1e4, 1e6 against a power-law "
+ "C08": ("Coq theorems: structural half over an abstract field on the hand-written Combiner model (tied by correspondence); analytic half over the reals (Coquelicot, improper integrals) on the "
+         "closures REGENERATED from heavy/*_cc.py, asy/*_cc.py and light/nlo/*.py by tools/pyinst.py and tools/pyk2coq.py",
+         "Proof: for CC, NC parity-conserving, intrinsic and 'missing' channels, any couplings, nf, heavy quark and order, the FFN0 kernels carry exactly the parton weights, nf and heavy-quark mass of the FFNS ones. "
+         "Charged current, complete through NLO: for ANY PDF bounded by G and Lipschitz (Lp) on [x,1] the massive and the asymptotic contribution of the quark channel (LO; NLO as plus distribution incl. its local part) "
+         "and of the gluon channel (NLO) to F2, FL, F3 differ by at most K(x,G,Lp) (1-lambda)(1+|ln(1-lambda)|), 1-lambda = m2/(Q2+m2), K explicit; pointwise bounds in z as well. "
+         "Hypotheses of the NLO quark theorems: derivative and reflection identity of the dilogarithm (jointly satisfiable, checked numerically on the implementation) and existence of the improper convolution integrals. "
+         "PARTIAL: the heavy-quark-initiated (intrinsic) channels beyond their pairing and all NC channels (LeProHQ, third party) are tested on real runs at Q2/m2 = 1e2, 1e4, 1e6 against a power-law "
          "envelope, not proved. NC F2/FL FFN0 cannot run here (adani). One defect fixed (0513cfd9), one open finding (NNLO non-singlet 'missing' channel of F3/g1).",
          "Trusted: Coq kernel+vm_compute, reals axioms as printed; tools/pyinst.py (translator, validated numerically against real instances by corr/instk.py); tools/corr/wlayer.py; the patrol is a test.", "0.3 / 4 C08"),
  "C09": ("Coq theorems over the rationals (lra/nra/field) on a hand-written model of the threshold test, the decorator, the closure shape and the slow-rescaling point; tied by "
